@@ -93,10 +93,13 @@ impl SdJwtVc {
   where
     R: Resolver<Url, Vec<u8>>,
   {
-    let metadata_url = {
+    let metadata_url: Url = {
       let origin = self.claims().iss.origin().ascii_serialization();
       let path = self.claims().iss.path();
-      format!("{origin}{WELL_KNOWN_VC_ISSUER}{path}").parse().unwrap()
+      // An issuer without a hierarchical origin (e.g. a DID or a `urn:`) has no well-known location.
+      format!("{origin}{WELL_KNOWN_VC_ISSUER}{path}")
+        .parse()
+        .map_err(|e| Error::InvalidIssuerMetadata(anyhow!("issuer \"{}\" has no metadata URL: {e}", self.claims().iss)))?
     };
     match resolver.resolve(&metadata_url).await {
       Err(ResolverErr::NotFound(_)) => Ok(None),
